@@ -42,7 +42,11 @@ func check(prop, tier string) int {
 		code, err = rt.RunSeq(prop, tier)
 	case "C16":
 		code, err = gen.RunGen(prop, tier, cli.Subset(prop, tier, func(s cli.Scenario) bool { return s.Prior == "ownnoop" || (s.Prior == "own" && s.Args == "ok") }))
-	case "C01", "C02", "C09", "C10", "C11", "C12", "C13", "C14", "C20":
+	case "C14":
+		code, err = gen.RunGen(prop, tier, cli.Subset(prop, tier, func(s cli.Scenario) bool {
+			return (s.Prior == "own" || s.Prior == "ownnoop" || s.Prior == "ownlong") && s.Out == "file" && s.Fault == "none"
+		}))
+	case "C01", "C02", "C09", "C10", "C11", "C12", "C13", "C20":
 		code, err = gen.RunGen(prop, tier)
 	case "C15":
 		code, err = cli.RunCLI(prop, tier, gen.ExtraC15(tier))
